@@ -76,9 +76,31 @@ class StmtMixin(BuiltinMixin):
         return [(st, NORMAL)]
 
     def st_Import(self, s, st, ctx):
+        for a in s.names:
+            top = a.name.split(".")[0]
+            self.assign_name(a.asname or top, self.external_value(a.name if a.asname else top) if top not in self.P.modules else
+                             __import__("pyvc.values", fromlist=["ModuleVal"]).ModuleVal(a.name if a.asname else top, False), st, ctx)
         return [(st, NORMAL)]
 
-    st_ImportFrom = st_Import
+    def st_ImportFrom(self, s, st, ctx):
+        mod = ctx.func.module
+        is_pkg = mod.relpath.endswith("__init__.py")
+        pkg_parts = mod.dotted.split(".") if is_pkg else mod.dotted.split(".")[:-1]
+        if s.level:
+            base = pkg_parts[: len(pkg_parts) - (s.level - 1)]
+            target = ".".join(base + (s.module.split(".") if s.module else []))
+        else:
+            target = s.module or ""
+        for a in s.names:
+            if target in self.P.modules or f"{target}.{a.name}" in self.P.modules:
+                r = self.P.resolve_attr_of_module(target, a.name)
+                if r is None:
+                    raise EngineError(f"{ctx.func.key()}:{s.lineno}: cannot import {a.name} from {target}")
+                v = self.global_to_value(r, st, ctx)
+            else:
+                v = self.external_value(f"{target}.{a.name}")
+            self.assign_name(a.asname or a.name, v, st, ctx)
+        return [(st, NORMAL)]
 
     def st_Global(self, s, st, ctx):
         raise EngineError("global statement")
